@@ -331,6 +331,12 @@ func c10Run(c c10Case) (sig string, err error) {
 					rel := srv.released[p.ID]
 					time.AfterFunc(10*time.Millisecond, func() { closeOnce(rel) })
 				}
+				if (p.Server == "late" || p.Server == "never" || p.Server == "close-late") && p.Cancel != "none" && p.Cancel != "pre" {
+					// the plan is to abandon this call; should the hook miss its moment (a loaded machine), the harness
+					// abandons it anyway after 3 s: a cancelled call must return, which the 30 s limit below still checks
+					wd := time.AfterFunc(3*time.Second, cancel)
+					defer wd.Stop()
+				}
 				done := make(chan callResult, 1)
 				go func() {
 					r := callResult{Caller: ci, Index: i, ID: p.ID}
